@@ -207,14 +207,16 @@ theorem pushScalar_phys (ext : Ext) (un : Bytes → String) (hun : ∀ s, un (st
     · simp [notSupported, fail] at h
   | dictionary p idx vals index =>
     simp only [Shape] at hs
-    obtain ⟨⟨kdt, vdt, rfl⟩, hidx, _, hvals⟩ := hs
+    obtain ⟨⟨kdt, vdt, rfl, hsv⟩, hidx, _, hvals⟩ := hs
     obtain ⟨ip, t, iv, ivals, rfl⟩ := isIntLeaf_form hidx
+    have hvals := dict_interp_utf8 hsv hvals hi
+    rw [interpScalar_dict_utf8 hsv hvals] at hi
     obtain ⟨vp, vty, vv, voffs, vdata, rfl, hvals⟩ := isUtf8B_form hvals
     unfold pushScalar at h
     simp only at h
     split at h
     · rename_i s hs
-      simp [interpScalar, hs] at hi
+      simp [hs] at hi
       subst hi
       simp only [pushL, erase, scalarL, bytesOfL, hun]
       split at h
